@@ -371,8 +371,10 @@ def run_property(pid, tier, seed):
         "assumptions": TRUSTED_BASE + list(getattr(P, "TRUSTED_EXTRA", [])),
         "wall_s": round(wall, 2), "violations": len(lines),
     }
-    os.makedirs(os.path.join(VERIF, "evidence"), exist_ok=True)
-    with open(os.path.join(VERIF, "evidence", pid + ".json"), "w") as fh:
+    # seeded-change runs (tools/seed_check.sh) must not overwrite the committed evidence of the unchanged tree
+    evdir = os.environ.get("VERIF_EVIDENCE_DIR") or os.path.join(VERIF, "evidence")
+    os.makedirs(evdir, exist_ok=True)
+    with open(os.path.join(evdir, pid + ".json"), "w") as fh:
         json.dump(ev, fh, indent=1, default=str)
     for l in lines:
         print(l)
